@@ -62,7 +62,8 @@ theorem assignY_spec (st : St) (l : LExp) (r : RExp) :
         simp only
         rcases evalSlot_cases st r with ⟨e, h1, h2⟩ | ⟨s, st1, v, h1, h2, h3, h4⟩
         · simp [h1, h2]
-        · simp [h1, h2, h3, storeShortcut, share_arrayLitSets, share_structLitAssignSets, bind, Except.bind, h4.var x, hv]
+        · simp [h1, h2, h3, storeShortcut, litFresh, share_arrayLitSets, share_structLitAssignSets, share_arrayLitAssignInPlace,
+            bind, Except.bind, h4.var x, hv]
     | false =>
       simp only [Bool.false_eq_true, if_false]
       cases hv : st.var x with
@@ -100,9 +101,15 @@ theorem assignY_spec (st : St) (l : LExp) (r : RExp) :
       · simp [h1, h2]
       · simp [h1, h2, h3]
 
-/-- `x := r` -/
-theorem defineY_spec (st : St) (x : Name) (r : RExp) (inBody reexec : Bool) (hre : reexec = true → inBody = true)
-    (h : sopClass inBody (.define x r) = none) : defineY share reexec st x r = Spec.define st x r := by
+/-- with today's facts a composite literal in a declaration always gives the variable a new cell (struct literals:
+    doComposite assigns the slot; array / slice / map literals: genValueLit, since commit 1436613 of the repository) -/
+theorem litFresh_define (r : RExp) (h : isCompositeLit r = true) : litFresh share false r = true := by
+  simp only [litFresh, share_structLitSetsSlot, share_arrayLitSets, share_arrayLitFresh, Bool.false_and, Bool.not_false,
+    Bool.and_true, Bool.not_true, Bool.false_or]
+  simpa [isCompositeLit] using h
+
+/-- `x := r` — on every execution, first or repeated -/
+theorem defineY_spec (st : St) (x : Name) (r : RExp) (reexec : Bool) : defineY share reexec st x r = Spec.define st x r := by
   unfold defineY Spec.define
   simp only [bind, Except.bind]
   rcases evalSlot_cases st r with ⟨e, h1, h2⟩ | ⟨s, st1, v, h1, h2, h3, h4⟩
@@ -112,21 +119,6 @@ theorem defineY_spec (st : St) (x : Name) (r : RExp) (inBody reexec : Bool) (hre
     | false =>
       simp only [Bool.false_eq_true, if_false, share_defineFresh, if_true]
       cases lookupEnv st1.env x <;> rfl
-    | true =>
-      simp only [if_true, storeShortcut]
-      cases hsl : isStructLit r with
-      | true => simp [share_structLitSetsSlot, Spec.declare]
-      | false =>
-        -- an array / slice / map literal: in the domain only outside loop bodies, i.e. first execution
-        have hal : isArrayLit r = true := by simpa [isCompositeLit, hsl] using hc
-        have hnb : inBody = false := by
-          cases hb : inBody with
-          | false => rfl
-          | true => simp [sopClass, hb, hal] at h
-        have hrx : reexec = false := by
-          cases hr : reexec with
-          | false => rfl
-          | true => rw [hre hr] at hnb; cases hnb
-        simp [hrx, Spec.declare]
+    | true => simp [storeShortcut, litFresh_define r hc, Spec.declare]
 
 end YaegiVerif.Share
